@@ -572,8 +572,22 @@ func provedOrLifted(p *fw.Program, fn *ssa.Function, env *fw.IntervalEnv, v ssa.
 				return false, "captured variable with unknown binding"
 			}
 			for _, bv := range vals {
+				// captured through several closure levels: follow the binding up to the owning function
+				owner := fn.Parent()
+				for hops := 0; hops < 6; hops++ {
+					fv2, isFV := bv.(*ssa.FreeVar)
+					if !isFV || owner == nil {
+						break
+					}
+					v2, _ := freeVarBindings(owner, fv2)
+					if len(v2) != 1 {
+						break
+					}
+					bv = v2[0]
+					owner = owner.Parent()
+				}
 				al, ok := bv.(*ssa.Alloc)
-				if !ok || al.Referrers() == nil {
+				if !ok || al.Referrers() == nil || owner == nil {
 					return false, "captured variable is not a local of the enclosing function"
 				}
 				// the closure itself must not write it
@@ -584,15 +598,24 @@ func provedOrLifted(p *fw.Program, fn *ssa.Function, env *fw.IntervalEnv, v ssa.
 						continue
 					}
 					n++
-					penv := newC13Env(fn.Parent())
-					if ok, why := provedOrLifted(p, fn.Parent(), penv, st.Val, st.Block(), k, depth+1); !ok {
+					penv := newC13Env(owner)
+					penv.CallRange = env.CallRange
+					if ok, why := provedOrLifted(p, owner, penv, st.Val, st.Block(), k, depth+1); !ok {
+						// assigned once, tested afterwards: the requirement holds where the closure is created
+						// (a dominating no-return guard on a load of the same variable)
+						if c13SingleStoreGuarded(owner, fn, al, penv, k) {
+							continue
+						}
 						return false, why
 					}
 				}
 				if n == 0 {
 					return false, "captured variable never assigned in the enclosing function"
 				}
-				for _, sib := range fn.Parent().AnonFuncs {
+				for _, sib := range fw.WithClosures(owner) {
+					if sib == owner {
+						continue
+					}
 					for _, w := range storesThroughFreeVar(sib, al) {
 						_ = w
 						return false, "captured variable is assigned inside a closure"
@@ -615,7 +638,7 @@ func provedOrLifted(p *fw.Program, fn *ssa.Function, env *fw.IntervalEnv, v ssa.
 		}
 		return true, ""
 	}
-	return false, ""
+	return false, "no local proof for "+v.Name()+" = "+v.String()
 }
 
 // liftedProved: the requirement on parameter par of fn holds at every static call site (recursively).
@@ -1082,14 +1105,24 @@ func hiStr(iv fw.Interval) string {
 // storesThroughFreeVar: stores in closure cl into the captured variable bound to alloc al.
 func storesThroughFreeVar(cl *ssa.Function, al *ssa.Alloc) []*ssa.Store {
 	var out []*ssa.Store
-	for i, fv := range cl.FreeVars {
-		bound := false
-		fw.EachInstr(cl.Parent(), func(ins ssa.Instruction) {
-			if mc, ok := ins.(*ssa.MakeClosure); ok && mc.Fn == cl && i < len(mc.Bindings) && mc.Bindings[i] == ssa.Value(al) {
-				bound = true
+	for _, fv := range cl.FreeVars {
+		// resolve the free variable through enclosing closures up to the variable it captures
+		var cur ssa.Value = fv
+		owner := cl
+		for hops := 0; hops < 8; hops++ {
+			f2, isFV := cur.(*ssa.FreeVar)
+			if !isFV || owner.Parent() == nil {
+				break
 			}
-		})
-		if !bound {
+			vals, _ := freeVarBindings(owner, f2)
+			if len(vals) != 1 {
+				cur = nil
+				break
+			}
+			cur = vals[0]
+			owner = owner.Parent()
+		}
+		if cur != ssa.Value(al) {
 			continue
 		}
 		fw.EachInstr(cl, func(ins ssa.Instruction) {
@@ -1099,4 +1132,76 @@ func storesThroughFreeVar(cl *ssa.Function, al *ssa.Alloc) []*ssa.Store {
 		})
 	}
 	return out
+}
+
+// c13SingleStoreGuarded: al is stored exactly once in owner (no closure stores, checked by the caller) and at every
+// MakeClosure in owner through which fn is created, the requirement k holds for a load of al that dominates it.
+func c13SingleStoreGuarded(owner, fn *ssa.Function, al *ssa.Alloc, penv *fw.IntervalEnv, k needKind) bool {
+	nst := 0
+	var loads []*ssa.UnOp
+	for _, r := range *al.Referrers() {
+		switch x := r.(type) {
+		case *ssa.Store:
+			if x.Addr == ssa.Value(al) {
+				nst++
+			}
+		case *ssa.UnOp:
+			if x.Op == token.MUL {
+				loads = append(loads, x)
+			}
+		}
+	}
+	_ = nst
+	// no store may follow a load we rely on: blocks reachable from the load's block
+	storeAfter := func(l *ssa.UnOp) bool {
+		reach := map[*ssa.BasicBlock]bool{}
+		stack := append([]*ssa.BasicBlock{}, l.Block().Succs...)
+		for len(stack) > 0 {
+			b := stack[len(stack)-1]
+			stack = stack[:len(stack)-1]
+			if reach[b] {
+				continue
+			}
+			reach[b] = true
+			stack = append(stack, b.Succs...)
+		}
+		for _, r := range *al.Referrers() {
+			st, ok := r.(*ssa.Store)
+			if !ok || st.Addr != ssa.Value(al) {
+				continue
+			}
+			if reach[st.Block()] || st.Block() == l.Block() && instrIndex(st) > instrIndex(l) {
+				return true
+			}
+		}
+		return false
+	}
+	// closures of owner from which fn descends
+	anc := map[*ssa.Function]bool{}
+	for f := fn; f != nil && f != owner; f = f.Parent() {
+		anc[f] = true
+	}
+	sites := 0
+	okAll := true
+	fw.EachInstr(owner, func(ins ssa.Instruction) {
+		mc, ok := ins.(*ssa.MakeClosure)
+		if !ok {
+			return
+		}
+		cf, ok := mc.Fn.(*ssa.Function)
+		if !ok || !anc[cf] {
+			return
+		}
+		sites++
+		proved := false
+		for _, l := range loads {
+			if l.Parent() == owner && precedesOnAllPaths(l, mc) && !storeAfter(l) && provedNeed(penv, l, mc.Block(), k) {
+				proved = true
+			}
+		}
+		if !proved {
+			okAll = false
+		}
+	})
+	return sites > 0 && okAll
 }
